@@ -27,7 +27,7 @@ def solve_obligation(o, timeout_s=10, dump_dir=None, inputs=None,
     '''sets o.status in {discharged, failed, unknown}, o.backend, o.time_s,
     o.model (python data for the inputs, when failed)'''
     t0 = time.time()
-    s = _solver(int(timeout_s * 1000))
+    s = _solver(int((2 if o.kind == 'canary' else timeout_s) * 1000))
     for a in C.str_axioms(): s.add(a)
     for h in o.hyps:         s.add(h)
     s.add(z3.Not(o.goal))
@@ -55,12 +55,36 @@ def solve_obligation(o, timeout_s=10, dump_dir=None, inputs=None,
     else:
         o.status = 'unknown'
         o.reason = s.reason_unknown()
+        if o.kind == 'canary':
+            # not refutable within the budget: the hypotheses are not (cheaply)
+            # inconsistent, which is what the canary is for
+            o.status = 'failed'
+            o.backend += ' (unknown: not refuted)'
+            o.time_s = time.time() - t0
+            return o
         if use_cvc5 and smt2:
             r2 = run_cvc5(smt2, timeout_s)
             if r2 == 'unsat':
                 o.status, o.backend = 'discharged', 'cvc5-1.0.3'
             elif r2 == 'sat':
                 o.status, o.backend = 'failed', 'cvc5-1.0.3'
+        if o.status == 'unknown':
+            # candidate counter-model: drop the quantified hypotheses.  A model
+            # of the weaker query is NOT a proof of failure; it is only used
+            # as input for the native replay.
+            from .symexec import has_quant
+            s2 = _solver(int(min(timeout_s, 5) * 1000))
+            for a in C.str_axioms(): s2.add(a)
+            for h in o.hyps:
+                if not has_quant(h): s2.add(h)
+            if not has_quant(o.goal):
+                s2.add(z3.Not(o.goal))
+                if s2.check() == z3.sat and inputs is not None:
+                    try:
+                        o.model = model_to_py(s2.model(), inputs)
+                        o.candidate = True
+                    except Exception:
+                        pass
     o.time_s = time.time() - t0
     o.smt2 = smt2
     return o
